@@ -32,6 +32,7 @@ AXES = [
     ('wide', [False, True]),             # 14 channels: more than the 12-channel neighbourhood
     ('label', ['', 'probe00', 'a']),      # 'a': a label that is a substring of the file names
     ('factor', [1, 2.5]),
+    ('symlinked', [False, True]),        # per-spike vectors of the source are links to the sorter's files
 ]
 
 ST_FULL = [0, 1, 2, 3, 1, 0, 3, 2]
@@ -188,7 +189,7 @@ def run_case(case, acc, order):
     spec = make_spec(cfg, case['fill'])
     extra = [('temp_wh.dat', b'\x00' * 64)] if cfg['temp_wh'] else []
     res = ac.run_convert(spec=spec, label=cfg['label'], factor=cfg['factor'], extra_files=extra,
-                         twice=cfg.get('twice', False),
+                         twice=cfg.get('twice', False), symlinked=cfg.get('symlinked', False),
                          out_variant=sum(1 for a, v in AXES if cfg[a] != v[0]) + len(cfg['label']))
     acc.state()
     ndev = sum(1 for a, v in AXES if cfg[a] != v[0])
